@@ -194,10 +194,13 @@ extern "C" {
 	((u32*)(block))[3] = u32Rev(((u32*)(block))[3])\
 
 #define beltBlockIncU32(block)\
-	if ((((u32*)(block))[0] += 1) == 0 &&\
-		(((u32*)(block))[1] += 1) == 0 &&\
-		(((u32*)(block))[2] += 1) == 0)\
-		((u32*)(block))[3] += 1\
+	do {\
+		register u32 _carry = 1;\
+		_carry = ((((u32*)(block))[0] += _carry) < _carry);\
+		_carry = ((((u32*)(block))[1] += _carry) < _carry);\
+		_carry = ((((u32*)(block))[2] += _carry) < _carry);\
+		((u32*)(block))[3] += _carry;\
+	} while (0)\
 
 /*
 *******************************************************************************
